@@ -642,3 +642,133 @@ T("C07-t-inline-level", "C07", TREE, '''                    target_level=target_
                     metaepoch_count=self.metaepoch_count,''', '''                    target_level=deme.level + 1,
                     metaepoch_count=self.metaepoch_count,''', "target level inlined in the call")
 T("C07-t-seed-inline", "C07", EA, "            seed_ind = Individual(x0, problem=self._problem)\n            starting_pop.append(seed_ind)", "            starting_pop.append(Individual(x0, problem=self._problem))", "seed individual built inline")
+
+# ----------------------------------------------------------------------------- C13
+_LL_NOW = '''            level_candidates.sort(reverse=True)
+            currently_active_level_below = len([deme for deme in tree.levels[level + 1] if deme.is_active])
+            if currently_active_level_below + len(level_candidates) > self.limit:
+                cutoff = self.limit - currently_active_level_below
+                cutoff_candidate = level_candidates[cutoff]
+                for deme in level_demes:
+                    candidates[deme].individuals = [
+                        ind for ind in candidates[deme].individuals if ind > cutoff_candidate
+                    ]
+'''
+_LL_PINNED = '''            level_candidates.sort(key=lambda ind: ind.fitness)
+            currently_active_level_below = len([deme for deme in tree.levels[level + 1] if deme.is_active])
+            if currently_active_level_below + len(level_candidates) > self.limit:
+                cutoff = self.limit - currently_active_level_below
+                fitness_cutoff = level_candidates[cutoff].fitness
+                for deme in level_demes:
+                    candidates[deme].individuals = [
+                        ind for ind in candidates[deme].individuals if ind.fitness < fitness_cutoff  # type: ignore
+                    ]
+'''
+M("C13-pinned-levellimit", "C13", FIL, _LL_NOW, _LL_PINNED, ["R13.1"], "pinned defect: LevelLimit orders by raw fitness")
+M("C13-pinned-cma", "C13", CMA, "        values = [sign * ind.fitness for ind in self.current_population]", "        values = [ind.fitness for ind in self.current_population]", ["R13.1"], "pinned defect (first tell): raw fitness told to CMA-ES")
+M("C13-pinned-cma-loop", "C13", CMA, "            values = [sign * ind.fitness for ind in offspring]", "            values = [ind.fitness for ind in offspring]", ["R13.1"], "pinned defect (loop): raw fitness told to CMA-ES")
+M("C13-pinned-local", "C13", LOC, '''        def fun(x):
+            return self._sign * self._problem.evaluate(x)
+''', '''        fun = self._problem.evaluate
+''', ["R13.1", "R13.5"], "pinned defect: scipy minimises the raw objective")
+M("C13-pinned-r5s", "C13", R5S, '''        # Individuals are ordered by the problem's own direction: best first.
+        sorted_individuals = sorted(individuals, reverse=True)''', '''        minimize = not individuals[0].problem.maximize
+        sorted_individuals = sorted(individuals, reverse=minimize)''', ["R13.3"], "pinned defect: direction applied twice in R5S")
+M("C13-topk-swapped", "C13", POP, "topk_indices = np.argsort(self.fitnesses)[-k:] if self.problem.maximize else np.argsort(self.fitnesses)[:k]", "topk_indices = np.argsort(self.fitnesses)[:k] if self.problem.maximize else np.argsort(self.fitnesses)[-k:]", ["R13.2"], "topk keeps the worst")
+M("C13-tournament-swapped", "C13", SEA, '''            np.argmax(tournament_fitnesses, axis=1)
+            if population_copy.problem.maximize
+            else np.argmin(tournament_fitnesses, axis=1)''', '''            np.argmin(tournament_fitnesses, axis=1)
+            if population_copy.problem.maximize
+            else np.argmax(tournament_fitnesses, axis=1)''', ["R13.2"], "tournament picks the loser")
+M("C13-tournament-one-armed", "C13", SEA, '''            np.argmax(tournament_fitnesses, axis=1)
+            if population_copy.problem.maximize
+            else np.argmin(tournament_fitnesses, axis=1)''', '''            np.argmin(tournament_fitnesses, axis=1)''', ["R13.1"], "tournament ignores the direction")
+M("C13-worse-than-swapped", "C13", PROB, '''        if self.maximize:
+            return first_fitness < second_fitness
+        else:
+            return first_fitness > second_fitness''', '''        if self.maximize:
+            return first_fitness > second_fitness
+        else:
+            return first_fitness < second_fitness''', ["R13.2"], "worse_than reversed")
+M("C13-worse-than-nonstrict", "C13", PROB, '''        if self.maximize:
+            return first_fitness < second_fitness
+        else:
+            return first_fitness > second_fitness''', '''        if self.maximize:
+            return first_fitness <= second_fitness
+        else:
+            return first_fitness > second_fitness''', ["R13.2"], "worse_than strict for one direction only")
+M("C13-pbest-no-negation", "C13", DEPY, "            else np.argsort(-1 * population.fitnesses)", "            else np.argsort(population.fitnesses)", ["R13.2"], "p-best of SHADE ignores maximisation")
+M("C13-de-mask-same", "C13", DEPY, '''            (trial_population.fitnesses >= parent_population.fitnesses)
+            if parent_population.problem.maximize
+            else (trial_population.fitnesses <= parent_population.fitnesses)
+        )
+        return (''', '''            (trial_population.fitnesses <= parent_population.fitnesses)
+            if parent_population.problem.maximize
+            else (trial_population.fitnesses <= parent_population.fitnesses)
+        )
+        return (''', ["R13.2"], "DE replacement mask identical for both directions")
+M("C13-cma-sign-swapped", "C13", CMA, "        sign = -1.0 if self._problem.maximize else 1.0", "        sign = 1.0 if self._problem.maximize else -1.0", ["R13.2"], "CMA sign adapter reversed")
+M("C13-local-no-unadapt", "C13", LOC, "        ind.fitness = self._sign * intermediate_result.fun", "        ind.fitness = intermediate_result.fun", ["R13.6"], "recorded local-search iterates keep the negated value")
+M("C13-best-min", "C13", TREE, "        return max(deme.best_individual for deme in self.leaves)", "        return min(deme.best_individual for deme in self.leaves)", ["R13.3"], "best leaf individual = worst")
+M("C13-demelimit-ascending", "C13", FIL, "candidates[deme].individuals = sorted(candidates[deme].individuals, reverse=True)[: self.limit]", "candidates[deme].individuals = sorted(candidates[deme].individuals)[: self.limit]", ["R13.3"], "DemeLimit keeps the worst")
+M("C13-nbc-raw-sort", "C13", NBC, "        sorted_individuals = sorted(evaluated_individuals, reverse=True)", "        sorted_individuals = sorted(evaluated_individuals, key=lambda ind: ind.fitness)", ["R13.1"], "NBC orders by raw fitness")
+M("C13-lt-swapped-args", "C13", IND, "        return self.problem.worse_than(self.fitness, other.fitness)", "        return self.problem.worse_than(other.fitness, self.fitness)", ["R13.4"], "Individual order reversed")
+M("C13-merge-cond-no-sign", "C13", "pyhms/cluster/merge_conditions.py", "            return (-1 if self.problem.maximize else 1) * self.problem.evaluate(x)", "            return self.problem.evaluate(x)", ["R13.5", "R13.1"], "merge condition's local search ignores the direction")
+M("C13-cutoff-sentinel-fixed", "C13", PROB, "            return -np.inf if self._inner.maximize else np.inf", "            return np.inf", ["R16.3", "R13.1", "R13.2"], "placeholder")
+CORPUS.pop()
+T("C13-t-topk-ifstmt", "C13", POP, "        topk_indices = np.argsort(self.fitnesses)[-k:] if self.problem.maximize else np.argsort(self.fitnesses)[:k]\n", "        if self.problem.maximize:\n            topk_indices = np.argsort(self.fitnesses)[-k:]\n        else:\n            topk_indices = np.argsort(self.fitnesses)[:k]\n", "if-statement form of the topk switch")
+T("C13-t-topk-negated", "C13", POP, "        topk_indices = np.argsort(self.fitnesses)[-k:] if self.problem.maximize else np.argsort(self.fitnesses)[:k]\n", "        topk_indices = np.argsort(self.fitnesses)[:k] if not self.problem.maximize else np.argsort(self.fitnesses)[-k:]\n", "negated test, arms exchanged")
+T("C13-t-cma-sign-local", "C13", CMA, "        sign = -1.0 if self._problem.maximize else 1.0", "        sign = 1.0 if not self._problem.maximize else -1.0", "sign adapter with negated test")
+T("C13-t-best-sorted", "C13", TREE, "        return max(deme.best_individual for deme in self.leaves)", "        return sorted((deme.best_individual for deme in self.leaves), reverse=True)[0]", "best via best-first sort")
+
+# ----------------------------------------------------------------------------- C08
+M("C08-pivot-plus-one", "C08", FIL, "                cutoff = self.limit - currently_active_level_below\n", "                cutoff = self.limit - currently_active_level_below + 1\n", ["C08.O4"], "pivot index shifted: one extra deme per level")
+M("C08-nonstrict-keep", "C08", FIL, "ind for ind in candidates[deme].individuals if ind > cutoff_candidate", "ind for ind in candidates[deme].individuals if ind >= cutoff_candidate", ["C08.O4"], "keeps the pivot (and ties)")
+M("C08-count-all-demes", "C08", FIL, "currently_active_level_below = len([deme for deme in tree.levels[level + 1] if deme.is_active])", "currently_active_level_below = len([deme for deme in tree.levels[level + 1] if deme.is_active and deme.metaepoch_count > 0])", ["C08.O4"], "freshly sprouted demes not counted as active")
+M("C08-guard-ge", "C08", FIL, "if currently_active_level_below + len(level_candidates) > self.limit:", "if currently_active_level_below + len(level_candidates) > self.limit + 1:", ["C08.O4"], "guard lets limit + 1 through")
+M("C08-level-skipped", "C08", FIL, "for level in range(len(tree.levels[:-1])):", "for level in range(len(tree.levels[:-2])):", ["C08.O5"], "the last sprouting level is not limited")
+M("C08-levellimit-not-last", "C08", MECH, "        [LevelLimit(level_limit)],\n    )", "        [LevelLimit(level_limit), SkipSameSprout()],\n    )", ["C08.O3"], "LevelLimit no longer last in the NBC factory")
+M("C08-tree-filters-first", "C08", MECH, '''        candidates = self.apply_deme_filters(candidates, tree)
+        candidates = self.apply_tree_filters(candidates, tree)''', '''        candidates = self.apply_tree_filters(candidates, tree)
+        candidates = self.apply_deme_filters(candidates, tree)''', ["C08.O3"], "tree-level filters applied before deme-level ones")
+M("C08-two-children", "C08", TREE, "            for ind in deme_candidates.individuals:\n                new_id = self._next_child_id(deme)", "            for ind in deme_candidates.individuals + deme_candidates.individuals[:1]:\n                new_id = self._next_child_id(deme)", ["C08.O6"], "first candidate sprouted twice")
+M("C08-sort-mismatch", "C08", FIL, "            level_candidates.sort(reverse=True)", "            level_candidates.sort()", ["C08.O4"], "ascending sort with `>` keep-predicate")
+M("C08-filter-skips-one-parent", "C08", FIL, "                for deme in level_demes:\n                    candidates[deme].individuals = [", "                for deme in level_demes[1:]:\n                    candidates[deme].individuals = [", ["C08.O4"], "first parent's candidates escape the cut")
+T("C08-t-sum-active", "C08", FIL, "currently_active_level_below = len([deme for deme in tree.levels[level + 1] if deme.is_active])", "currently_active_level_below = sum(1 for deme in tree.levels[level + 1] if deme.is_active)", "active count as a sum")
+T("C08-t-inline-cutoff", "C08", FIL, '''                cutoff = self.limit - currently_active_level_below
+                cutoff_candidate = level_candidates[cutoff]''', '''                cutoff_candidate = level_candidates[self.limit - currently_active_level_below]''', "pivot index inlined")
+
+# ----------------------------------------------------------------------------- C10
+M("C10-pinned-levellimit", "C10", FIL, _LL_NOW, _LL_PINNED, ["R10.4"], "pinned defect: LevelLimit keeps the worst on maximisation")
+M("C10-demelimit-worst", "C10", FIL, "candidates[deme].individuals = sorted(candidates[deme].individuals, reverse=True)[: self.limit]", "candidates[deme].individuals = sorted(candidates[deme].individuals)[: self.limit]", ["R10.3"], "DemeLimit keeps the worst")
+M("C10-demelimit-plus-one", "C10", FIL, "candidates[deme].individuals = sorted(candidates[deme].individuals, reverse=True)[: self.limit]", "candidates[deme].individuals = sorted(candidates[deme].individuals, reverse=True)[: self.limit + 1]", ["R10.3"], "DemeLimit keeps limit + 1")
+M("C10-demelimit-raw-key", "C10", FIL, "candidates[deme].individuals = sorted(candidates[deme].individuals, reverse=True)[: self.limit]", "candidates[deme].individuals = sorted(candidates[deme].individuals, key=lambda ind: ind.fitness)[: self.limit]", ["R10.3", "R10.4"], "DemeLimit sorts by raw fitness")
+M("C10-gen-inactive", "C10", GEN, '''            for level in tree.levels[:-1]
+            for deme in level
+            if deme.is_active
+        }''', '''            for level in tree.levels[:-1]
+            for deme in level
+        }''', ["R10.1"], "BestPerDeme offers candidates of stopped demes")
+M("C10-gen-skips-young", "C10", GEN, '''        candidates = {}
+        for level in tree.levels[:-1]:
+            for deme in level:
+                if deme.is_active:''', '''        candidates = {}
+        for level in tree.levels[:-1]:
+            for deme in level:
+                if deme.is_active and deme.metaepoch_count > 1:''', ["R10.1"], "NBC generator ignores young demes")
+M("C10-filter-adds", "C10", FIL, '''            candidates[deme].individuals = not_equal_candidate_sprouts
+        return candidates''', '''            candidates[deme].individuals = not_equal_candidate_sprouts or [deme.best_individual]
+        return candidates''', ["R10.2"], "a filter adds a fallback candidate")
+M("C10-skipsame-no-negation", "C10", FIL, "if not np.any(np.all(np.isclose(children_sprout_genomes, ind.genome), axis=1))", "if np.any(np.all(np.isclose(children_sprout_genomes, ind.genome), axis=1))", ["R10.6"], "only repeated seeds pass")
+M("C10-skipsame-any-all", "C10", FIL, "if not np.any(np.all(np.isclose(children_sprout_genomes, ind.genome), axis=1))", "if not np.all(np.any(np.isclose(children_sprout_genomes, ind.genome), axis=1))", ["R10.6"], "quantifiers exchanged")
+M("C10-skipsame-own-children", "C10", FIL, "[child._sprout_seed.genome for level_deme in tree.levels[deme.level] for child in level_deme.children]", "[child._sprout_seed.genome for level_deme in tree.levels[deme.level] for child in level_deme.children if child.is_active]", ["R10.6"], "seeds of stopped demes can be re-sprouted")
+M("C10-empty-kept", "C10", MECH, "        return {k: v for k, v in candidates.items() if candidates[k].individuals}", "        return dict(candidates)", ["R10.5"], "parents without candidates are returned too (they then never hibernate)")
+T("C10-t-demelimit-noguard", "C10", FIL, '''            if len(candidates[deme].individuals) > self.limit:
+                candidates[deme].individuals = sorted(candidates[deme].individuals, reverse=True)[: self.limit]''', '''            candidates[deme].individuals = sorted(candidates[deme].individuals, reverse=True)[: self.limit]''', "unconditional truncation")
+T("C10-t-farenough-alias", "C10", FIL, '''            child_seeds = candidates[deme].individuals
+            for sibling in child_siblings:
+                child_seeds = [ind for ind in child_seeds if self._is_far_enough(ind, sibling.centroid)]
+            candidates[deme].individuals = child_seeds''', '''            remaining = candidates[deme].individuals
+            for sibling in child_siblings:
+                remaining = [ind for ind in remaining if self._is_far_enough(ind, sibling.centroid)]
+            candidates[deme].individuals = remaining''', "renamed alias")
